@@ -234,6 +234,11 @@ pub fn apply(op: &Op) {
                     label(lab::CONSUME_LINKED);
                 }
             }
+            // no reference into the value is alive here
+            let id2 = lib(|| unsafe { Rc::get_mut_unchecked(&mut *lr.h).id.get() });
+            if id2 != t {
+                violate(View::Consume, "get_mut_unchecked returned the wrong value");
+            }
         }
         Op::IntoRaw(sel) => {
             let n = wd.model.borrow().roots.len();
